@@ -85,13 +85,13 @@ class MultiTargetMCSU2(Gate):
             is_secondary_diags_real = []
             for unitary in self.unitaries:
                 is_main_diags_real.append(
-                    isclose(unitary[0, 0].imag, 0.0)
-                    and isclose(unitary[1, 1].imag, 0.0)
+                    isclose(unitary[0, 0].imag, 0.0, abs_tol=1e-12)
+                    and isclose(unitary[1, 1].imag, 0.0, abs_tol=1e-12)
                 )
 
                 is_secondary_diags_real.append(
-                    isclose(unitary[0, 1].imag, 0.0)
-                    and isclose(unitary[1, 0].imag, 0.0)
+                    isclose(unitary[0, 1].imag, 0.0, abs_tol=1e-12)
+                    and isclose(unitary[1, 0].imag, 0.0, abs_tol=1e-12)
                 )
 
             for idx, unitary in enumerate(self.unitaries):
